@@ -139,4 +139,25 @@ theorem derived_trim_forwarding_counter : ∀ code ∈ newCodes, code.1 = 1 →
 
 example : ∃ code ∈ newCodes, code.1 = 1 := by decide
 
+/-- EVERY history of `rc()` calls: after `n` calls the collection displays every row of the original display with the
+reverse complement applied `n` times — so an even number of calls displays the original rows and an odd number their
+reverse complements, whatever the state it started from. -/
+theorem collection_rc_history (rcf : List Char → List Char) (hinv : ∀ s, rcf (rcf s) = s) :
+    ∀ (n : Nat) (sd : SD), (sd.rcTimes n).rows rcf = (sd.rows rcf).map (if n % 2 = 0 then id else rcf) := by
+  intro n
+  induction n with
+  | zero => intro sd; simp [SD.rcTimes]
+  | succ n ih =>
+    intro sd
+    rw [SD.rcTimes, ih, (collection_rc_displayed rcf hinv sd).1, List.map_map]
+    apply List.map_congr_left
+    intro r _
+    by_cases h : n % 2 = 0
+    · have h' : ¬ ((n + 1) % 2 = 0) := by omega
+      simp [h, h']
+    · have h' : (n + 1) % 2 = 0 := by omega
+      simp [h, h', hinv]
+
+example : ((SD.fresh [(['a'], ['A', 'C'])]).rcTimes 3).rows (newRc newDna) = [['G', 'T']] := by decide +kernel
+
 end CogentModel.C12State
